@@ -320,49 +320,25 @@ func c16Y1(l *core.Ledger, g *gen.Generator) {
 func mapRangeIdiom(l *core.Ledger, g *gen.Generator, f genFunc, rs *ast.RangeStmt) (bool, string) {
 	info := g.Pkg.TypesInfo
 	body := rs.Body.List
+	le := collectLoopEffects(info, body)
+	onlyAppends := le.mapInsert == 0 && len(le.returns) == 0 && len(le.calls) == 0 && le.other == 0 && len(le.appendTo) == 1
 	// (a) insert-only
-	insertOnly := len(body) > 0
-	for _, st := range body {
-		as, ok := st.(*ast.AssignStmt)
-		if !ok || len(as.Lhs) != 1 {
-			insertOnly = false
-			break
-		}
-		ix, ok := as.Lhs[0].(*ast.IndexExpr)
-		if !ok {
-			insertOnly = false
-			break
-		}
-		if _, isMap := info.TypeOf(ix.X).Underlying().(*types.Map); !isMap {
-			insertOnly = false
-		}
-	}
-	if insertOnly {
+	if le.mapInsert > 0 && len(le.appendTo) == 0 && len(le.returns) == 0 && len(le.calls) == 0 && le.other == 0 {
 		return true, "(a) body only inserts into a map"
 	}
 	// (b) append to a slice that is sorted before any other use
-	if len(body) == 1 {
-		if as, ok := body[0].(*ast.AssignStmt); ok && len(as.Lhs) == 1 && len(as.Rhs) == 1 {
-			if ce, ok := as.Rhs[0].(*ast.CallExpr); ok {
-				if id, ok := ce.Fun.(*ast.Ident); ok && id.Name == "append" && len(ce.Args) == 2 {
-					dst := objOf(info, as.Lhs[0])
-					if dst != nil && objOf(info, ce.Args[0]) == dst {
-						// the next statement that mentions dst after the loop must be sort.*(dst)
-						if sortedNext(info, f.body(), rs, dst) {
-							return true, "(b) keys appended to a slice that is sorted before its first use"
-						}
-						return false, "keys are appended to a slice in map order and the slice is used without being sorted first"
-					}
-				}
-			}
+	if onlyAppends {
+		var dst types.Object
+		for d := range le.appendTo {
+			dst = d
 		}
-	}
-	// (b') guarded append (callTypeOptions): if cond { if cond { append } }
-	if dst, ok := guardedAppendOnly(info, body); ok {
 		if sortedNext(info, f.body(), rs, dst) {
-			return true, "(b) filtered keys appended to a slice that is sorted before its first use"
+			return true, "(b) keys appended to a slice that is sorted before its first use"
 		}
-		// returned unsorted: acceptable only if consumers are order-insensitive — decided by Y3 (unique call type)
+		if !le.guarded {
+			return false, "keys are appended to a slice in map order and the slice is used without being sorted first"
+		}
+		// (b*) filtered and returned unsorted: acceptable only if consumers are order-insensitive - decided by Y3 (unique call type)
 		return true, "(b*) filtered values appended in map order and returned unsorted: order-insensitive iff at most one element can satisfy its consumer's predicate (decided by C16-Y3 'unique call type')"
 	}
 	// (c) existential search: in-loop returns all return the same constant, no other effect
@@ -390,10 +366,10 @@ func mapRangeIdiom(l *core.Ledger, g *gen.Generator, f genFunc, rs *ast.RangeStm
 			}
 		}
 	}
-	// (e) first-match selection over exclusive predicates: `if x.chkFn(m) { return x }`
-	if len(body) == 1 {
-		if ifs, ok := body[0].(*ast.IfStmt); ok && ifs.Else == nil && len(ifs.Body.List) == 1 {
-			if ret, ok := ifs.Body.List[0].(*ast.ReturnStmt); ok && len(ret.Results) == 1 && objOf(info, ret.Results[0]) == objOf(info, rs.Value) {
+	// (e) first-match selection over exclusive predicates: the only effect is a guarded `return <the ranged value>`
+	if len(le.returns) == 1 && le.guarded && le.mapInsert == 0 && len(le.appendTo) == 0 && len(le.calls) == 0 && le.other == 0 {
+		{
+			if ret := le.returns[0]; len(ret.Results) == 1 && rs.Value != nil && objOf(info, ret.Results[0]) == objOf(info, rs.Value) {
 				// predicates of nested call types must be pairwise exclusive
 				for _, e := range g.CallTypes {
 					if len(e.Nested) < 2 {
@@ -456,6 +432,115 @@ func sortedNext(info *types.Info, fnBody *ast.BlockStmt, rs *ast.RangeStmt, dst 
 		return true
 	})
 	return okSorted
+}
+
+// loopEffects summarises what the body of a range statement does, whatever
+// its control structure (nested ifs, guard clauses with continue, blocks):
+// the statements with an effect outside the iteration, classified.
+type loopEffects struct {
+	appendTo   map[types.Object]int // dst = append(dst, ...)
+	mapInsert  int                  // m[k] = v
+	returns    []*ast.ReturnStmt
+	calls      []*ast.CallExpr // expression statements
+	other      int             // anything else with an effect
+	guarded    bool            // some effect sits under a condition
+	localsOnly bool
+}
+
+func collectLoopEffects(info *types.Info, body []ast.Stmt) *loopEffects {
+	le := &loopEffects{appendTo: map[types.Object]int{}}
+	var walk func(st ast.Stmt, cond bool)
+	walkList := func(list []ast.Stmt, cond bool) {
+		for i, st := range list {
+			// statements after a guard clause (`if c { continue }`) are conditional, too
+			c := cond
+			for _, prev := range list[:i] {
+				if ifs, ok := prev.(*ast.IfStmt); ok && endsInJump(ifs.Body) {
+					c = true
+				}
+			}
+			walk(st, c)
+		}
+	}
+	walk = func(st ast.Stmt, cond bool) {
+		switch x := st.(type) {
+		case nil, *ast.EmptyStmt:
+		case *ast.BranchStmt:
+			if x.Tok != token.CONTINUE && x.Tok != token.BREAK {
+				le.other++
+			}
+		case *ast.ReturnStmt:
+			le.returns = append(le.returns, x)
+			le.guarded = le.guarded || cond
+		case *ast.IfStmt:
+			if x.Init != nil {
+				walk(x.Init, cond)
+			}
+			walkList(x.Body.List, true)
+			if x.Else != nil {
+				walk(x.Else, true)
+			}
+		case *ast.BlockStmt:
+			walkList(x.List, cond)
+		case *ast.RangeStmt:
+			walkList(x.Body.List, true)
+		case *ast.ForStmt:
+			walkList(x.Body.List, true)
+		case *ast.SwitchStmt:
+			for _, cc := range x.Body.List {
+				walkList(cc.(*ast.CaseClause).Body, true)
+			}
+		case *ast.DeclStmt:
+		case *ast.ExprStmt:
+			if ce, ok := x.X.(*ast.CallExpr); ok {
+				le.calls = append(le.calls, ce)
+				le.guarded = le.guarded || cond
+			} else {
+				le.other++
+			}
+		case *ast.AssignStmt:
+			if x.Tok == token.DEFINE {
+				return // a new local of this iteration
+			}
+			if len(x.Lhs) == 1 && len(x.Rhs) == 1 {
+				if ix, ok := x.Lhs[0].(*ast.IndexExpr); ok {
+					if _, isMap := info.TypeOf(ix.X).Underlying().(*types.Map); isMap {
+						le.mapInsert++
+						le.guarded = le.guarded || cond
+						return
+					}
+				}
+				if ce, ok := x.Rhs[0].(*ast.CallExpr); ok {
+					if id, ok := ce.Fun.(*ast.Ident); ok && id.Name == "append" && len(ce.Args) >= 2 && !ce.Ellipsis.IsValid() {
+						dst := objOf(info, x.Lhs[0])
+						if dst != nil && objOf(info, ce.Args[0]) == dst {
+							le.appendTo[dst]++
+							le.guarded = le.guarded || cond
+							return
+						}
+					}
+				}
+			}
+			le.other++
+		default:
+			le.other++
+		}
+	}
+	walkList(body, false)
+	return le
+}
+
+func endsInJump(b *ast.BlockStmt) bool {
+	if len(b.List) == 0 {
+		return false
+	}
+	switch x := b.List[len(b.List)-1].(type) {
+	case *ast.BranchStmt:
+		return x.Tok == token.CONTINUE || x.Tok == token.BREAK
+	case *ast.ReturnStmt:
+		return true
+	}
+	return false
 }
 
 func guardedAppendOnly(info *types.Info, body []ast.Stmt) (types.Object, bool) {
@@ -1379,17 +1464,16 @@ func c16Y6(l *core.Ledger, g *gen.Generator) {
 		return
 	}
 	okLoop := false
-	ast.Inspect(guard.Body, func(nd ast.Node) bool {
-		outer, ok := nd.(*ast.RangeStmt)
-		if !ok || !strings.HasSuffix(types.ExprString(outer.X), ".Messages") {
-			return true
-		}
-		ast.Inspect(outer.Body, func(m ast.Node) bool {
+	info := g.Pkg.TypesInfo
+	// innerMatch: a range over reservedIdents whose body compares the element with something
+	// and does `then` on equality
+	innerMatch := func(body ast.Node, then func(*ast.IfStmt) bool) bool {
+		hit := false
+		ast.Inspect(body, func(m ast.Node) bool {
 			inner, ok := m.(*ast.RangeStmt)
-			if !ok || types.ExprString(inner.X) != "reservedIdents" {
+			if !ok || types.ExprString(inner.X) != "reservedIdents" || inner.Value == nil {
 				return true
 			}
-			// comparison of the message name with the reserved element, fatal on equality
 			ast.Inspect(inner.Body, func(k ast.Node) bool {
 				ifs, ok := k.(*ast.IfStmt)
 				if !ok {
@@ -1399,13 +1483,62 @@ func c16Y6(l *core.Ledger, g *gen.Generator) {
 				if !ok || be.Op != token.EQL {
 					return true
 				}
-				if objOf(g.Pkg.TypesInfo, be.Y) == objOf(g.Pkg.TypesInfo, inner.Value) || objOf(g.Pkg.TypesInfo, be.X) == objOf(g.Pkg.TypesInfo, inner.Value) {
-					if callsFatal(g.Pkg.TypesInfo, ifs.Body) {
-						okLoop = true
+				if objOf(info, be.Y) == objOf(info, inner.Value) || objOf(info, be.X) == objOf(info, inner.Value) {
+					if then(ifs) {
+						hit = true
 					}
 				}
 				return true
 			})
+			return true
+		})
+		return hit
+	}
+	// isMembership: the expression is true exactly when its argument is a reserved identifier
+	isMembership := func(e ast.Expr) bool {
+		ce, ok := ast.Unparen(e).(*ast.CallExpr)
+		if !ok || len(ce.Args) == 0 {
+			return false
+		}
+		if f := resolvedCall(info, ce); f != nil && f.Pkg() != nil && f.Pkg().Path() == "slices" && f.Name() == "Contains" && len(ce.Args) == 2 && types.ExprString(ce.Args[0]) == "reservedIdents" {
+			return true
+		}
+		id, ok := ce.Fun.(*ast.Ident)
+		if !ok || len(ce.Args) != 1 {
+			return false
+		}
+		fd := g.FuncDecl(id.Name)
+		if fd == nil || fd.Type.Params.NumFields() != 1 || len(fd.Body.List) == 0 {
+			return false
+		}
+		// range reservedIdents { if param == elem { return true } } ... return false
+		last, ok := fd.Body.List[len(fd.Body.List)-1].(*ast.ReturnStmt)
+		if !ok || len(last.Results) != 1 || types.ExprString(last.Results[0]) != "false" {
+			return false
+		}
+		return innerMatch(fd.Body, func(ifs *ast.IfStmt) bool {
+			if len(ifs.Body.List) != 1 {
+				return false
+			}
+			r, ok := ifs.Body.List[0].(*ast.ReturnStmt)
+			return ok && len(r.Results) == 1 && types.ExprString(r.Results[0]) == "true"
+		})
+	}
+	ast.Inspect(guard.Body, func(nd ast.Node) bool {
+		outer, ok := nd.(*ast.RangeStmt)
+		if !ok || !strings.HasSuffix(types.ExprString(outer.X), ".Messages") {
+			return true
+		}
+		// comparison of the message name with every reserved element, fatal on equality
+		if innerMatch(outer.Body, func(ifs *ast.IfStmt) bool { return callsFatal(info, ifs.Body) }) {
+			okLoop = true
+		}
+		// or: a membership predicate over reservedIdents guards the fatal call
+		ast.Inspect(outer.Body, func(m ast.Node) bool {
+			ifs, ok := m.(*ast.IfStmt)
+			if ok && isMembership(ifs.Cond) && callsFatal(info, ifs.Body) {
+				okLoop = true
+			}
 			return true
 		})
 		return true
